@@ -8,6 +8,7 @@ import (
 	"encoding/asn1"
 	"fmt"
 	"math/big"
+	"strings"
 	"time"
 
 	"github.com/tjfoc/gmsm/pkcs12"
@@ -207,8 +208,23 @@ func runC17(c *Ctx) {
 				rep.Eval(cls)
 				return
 			}
-			if s := cC.Check(); s != "" {
+			if s := cC.Check(); strings.HasPrefix(s, "input byte") {
+				// the content itself (within its length) is no longer what the caller enveloped: the next envelope made from
+				// the same slice would carry something else
+				rep.Violation("C17/PKCS7EncryptSM2/changes-the-callers-content/"+algName, s, w)
+			} else if s != "" {
 				rep.Count("observations_outside_property/PKCS7EncryptSM2_writes_pad_into_caller_capacity", 1)
+			}
+			if i%4 == 0 {
+				// the same slice enveloped a second time (another recipient list): still the same content
+				der2, e2 := gx509.PKCS7EncryptSM2(cC.Slice(), []*gx509.Certificate{rc[3].c}, e.mode)
+				if e2 == nil {
+					if q, e3 := gx509.ParsePKCS7(der2); e3 == nil {
+						if got, e4 := q.DecryptSM2(rc[3].c, rc[3].k, e.mode); e4 != nil || !bytes.Equal(got, content) {
+							rep.Violation("C17/PKCS7EncryptSM2/second-envelope-of-the-same-slice-carries-other-content/"+algName, fmt.Sprint(e4), w)
+						}
+					}
+				}
 			}
 			w["der"] = mon.Hex(der)
 			var p7 *gx509.PKCS7
@@ -314,6 +330,74 @@ func runC17(c *Ctx) {
 	}
 	gx509.ContentEncryptionAlgorithm = gx509.EncryptionAlgorithmDESCBC
 
+	// ---- DER length-of-length boundaries: an element of exactly 127/128, 255/256, 65535/65536 bytes changes the size of
+	// its length field; with several nesting levels around the content, each level crosses each boundary at another
+	// content length. Windows of consecutive content lengths make every level cross every boundary once.
+	{
+		gx509.ContentEncryptionAlgorithm = gx509.EncryptionAlgorithmAES128GCM
+		var ns []int
+		for n := 60; n <= 140; n++ {
+			ns = append(ns, n)
+		}
+		for n := 180; n <= 260; n += 1 {
+			ns = append(ns, n)
+		}
+		lo := 65536 - c.Q(110, 400)
+		for n := lo; n <= 65536; n++ {
+			ns = append(ns, n)
+		}
+		base := c.Rng("derlen").Bytes(65536)
+		Par(len(ns), func(i int) {
+			n := ns[i]
+			content := base[:n:n]
+			w := map[string]interface{}{"content_len": n}
+			der, err := gx509.PKCS7EncryptSM2(content, []*gx509.Certificate{rc[0].c}, 0)
+			if err != nil {
+				rep.Violation("C17/PKCS7EncryptSM2/fails/AES-128-GCM", err.Error(), w)
+				return
+			}
+			var got []byte
+			if pi := mon.Guard(func() {
+				var p7 *gx509.PKCS7
+				if p7, err = gx509.ParsePKCS7(der); err == nil {
+					got, err = p7.DecryptSM2(rc[0].c, rc[0].k, 0)
+				}
+			}); pi != nil || err != nil || !bytes.Equal(got, content) {
+				rep.Violation("C17/enveloped/content-length-window-around-a-DER-length-boundary", fmt.Sprintf("content of %d bytes: %v %v", n, pi, err), w)
+			}
+			rep.Eval(fmt.Sprintf("enveloped/sm2/AES-128-GCM/der-length-window/%d", n/1000))
+			if rsaC1 != nil && (c.Thorough || n%4 == 0 || n < 300) {
+				// attached signed data of the same length
+				var sder []byte
+				if pi := mon.Guard(func() {
+					sd, e := gx509.NewSignedData(content)
+					if e == nil {
+						e = sd.AddSigner(rsaC1, rk1, gx509.SignerInfoConfig{})
+					}
+					if e == nil {
+						sder, e = sd.Finish()
+					}
+					err = e
+				}); pi != nil || err != nil {
+					rep.Violation("C17/SignedData/build-fails", fmt.Sprint(pi, err), w)
+					return
+				}
+				if pi := mon.Guard(func() {
+					var p7 *gx509.PKCS7
+					if p7, err = gx509.ParsePKCS7(sder); err == nil {
+						if err = p7.Verify(); err == nil && !bytes.Equal(p7.Content, content) {
+							err = fmt.Errorf("content differs")
+						}
+					}
+				}); pi != nil || err != nil {
+					rep.Violation("C17/signed/content-length-window-around-a-DER-length-boundary", fmt.Sprintf("content of %d bytes: %v %v", n, pi, err), w)
+				}
+				rep.Eval(fmt.Sprintf("signed/rsa/der-length-window/%d", n/1000))
+			}
+		})
+		gx509.ContentEncryptionAlgorithm = gx509.EncryptionAlgorithmDESCBC
+	}
+
 	// ---- signed data
 	runC17Signed(c, rc[0].k, rc[0].c, rc[1].k, rc[1].c, rk1, rsaC1)
 	if rsaC1 != nil {
@@ -323,6 +407,7 @@ func runC17(c *Ctx) {
 	runC17P12(c, rk1, rsaC1)
 	runC17P12Std(c)
 	runC17P12Fixtures(c)
+	runC17P12Files(c)
 }
 
 type sdCheck struct {
